@@ -898,6 +898,12 @@ def o_c17(run):
             ik = dict(w.split('=', 1) for w in iw[1:] if '=' in w)
             exp_ports = sorted(m.get('expected_ports', '').split(','))
             got_ports = sorted(a.split(':')[-1] for a in ik.get('listen', '').split(',') if a)
+            if m.get('occupied'):
+                # one of the given addresses is held by another process: serving on every address given is impossible,
+                # so the only conforming behaviour is not to come up at all
+                if iw[:1] == ['ok']:
+                    out.append(fail('C17: it serves on every listen address given', r, f'address 127.0.0.1:{m.get("occupied")} could not be bound (held by another process), yet the server runs and serves only on ports {got_ports} of {exp_ports}'))
+                continue
             if iw[:1] != ['ok']:
                 out.append(fail('C17: the server starts with the given configuration and serves on every listen address', r, f'did not start: {r.impl}'))
             elif exp_ports != got_ports:
